@@ -733,6 +733,9 @@ func contractKeyDisplay(ct *FuncContract) string {
 	if ct.Pkg == "" {
 		return ct.Name + " (library, trusted)"
 	}
+	if ct.Trusted {
+		return ct.Name + " (contract in the hook files, body not verified: trusted)"
+	}
 	return ct.Name
 }
 
